@@ -115,6 +115,9 @@ func IdOf(v any) string {
 	if x, ok := v.(Identified); ok {
 		return x.Ident()
 	}
+	if _, ok := v.(*TS1); ok {
+		return "TS1"
+	}
 	return "?"
 }
 
@@ -220,3 +223,23 @@ func BuildQ(p QProv, i int) any {
 	}
 	return &PrimQ{b, QQual{p.Q}}
 }
+
+// Sealed interface (it has an unexported method): implementers differ in how many exported
+// methods they have.
+type IS interface {
+	M1()
+	sealed()
+}
+
+// TS1 has a single exported method (fewer than the interface has methods in total).
+type TS1 struct{ X int }
+
+func (*TS1) M1()     {}
+func (*TS1) sealed() {}
+
+type TS2 struct{ Nm }
+
+func (*TS2) M1()     {}
+func (*TS2) sealed() {}
+func (*TS2) Extra1() {}
+func (*TS2) Extra2() {}
